@@ -124,7 +124,7 @@ Check C17_others_listed_ignored : forall ds t,
   ct_notes t = map note_of (filter (fun d => negb (counted d)) ds).
 Print Assumptions C17_others_listed_ignored.
 
-(* The code before commit 237950b ("carry the closing cost forward"), i.e. the
+(* The code before commit cf90861 ("carry the closing cost forward"), i.e. the
    same model with the day's maximum carried forward, does NOT satisfy the
    specification: a security bought and fully sold on one day keeps its peak
    cost on the next dated row.  (The witness is replayed by the check against
